@@ -8,5 +8,5 @@ Definition dump_fuel : nat := S (N.to_nat c_MUSCLE_MAX_NODE_DEPTH).
 Definition code_unimplemented : N := c_PR_RESULT_ERRORUNIMPLEMENTED.
 Definition code_denied : N := c_PR_RESULT_ERRORACCESSDENIED.
 Definition begin_commands : N := c_BEGIN_PR_COMMANDS.
-Extraction "bounded_model.ml" bstep empty_bserver all_fixed as_found dfs dump_fuel sv_tree sv_sessions sv_dirty
+Extraction "bounded_model.ml" bstep empty_bserver all_fixed as_found code_fixes code_jfix dfs dump_fuel sv_tree sv_sessions sv_dirty
   b_sv b_gws b_last code_unimplemented code_denied begin_commands jettison_results supersede_scan.
